@@ -84,6 +84,9 @@ type TableSpec struct {
 	PK       []string  `json:"pk"`
 	Unique   []string  `json:"unique,omitempty"`
 	Rows     [][]Lit   `json:"rows"`
+	// PKReversed: the PRIMARY KEY clause names the key columns in the reverse of their column order
+	// (PRIMARY KEY (k2, k1) on columns k1, k2); PK itself stays in column order
+	PKReversed bool `json:"pk_reversed,omitempty"`
 }
 
 // DDL renders CREATE TABLE for the given name.
@@ -104,7 +107,11 @@ func (t TableSpec) DDL(name string) string {
 	}
 	pk := make([]string, len(t.PK))
 	for i, p := range t.PK {
-		pk[i] = "`" + p + "`"
+		if t.PKReversed {
+			pk[len(t.PK)-1-i] = "`" + p + "`"
+		} else {
+			pk[i] = "`" + p + "`"
+		}
 	}
 	parts = append(parts, "PRIMARY KEY ("+strings.Join(pk, ",")+")")
 	if len(t.Unique) > 0 {
@@ -270,6 +277,7 @@ func DrawTable(t *rapid.T, idx int) TableSpec {
 	default:
 		tb.Cols = append(tb.Cols, ColSpec{Name: "k1", Type: "INT", Base: "INT"}, ColSpec{Name: "k2", Type: "VARCHAR(16)", Base: "VARCHAR"})
 		tb.PK = []string{"k1", "k2"}
+		tb.PKReversed = rapid.IntRange(0, 2).Draw(t, "pkReversed") == 0
 	}
 	n := rapid.IntRange(1, 4).Draw(t, "nCols")
 	var pool []ColSpec
@@ -695,6 +703,50 @@ func DrawStmt(t *rapid.T, tables []TableSpec, opt StmtOptions) Stmt {
 	case "update":
 		b.sb.WriteString("UPDATE " + tn + " SET ")
 		nonKey := tb.Cols[len(tb.PK):]
+		if len(tb.Rows) > 0 && rapid.IntRange(0, 9).Draw(t, "nearEqual") == 0 {
+			// a change that leaves the value "almost" what it was: only the letter case differs, or a trailing
+			// blank is added (values that compare equal under MySQL's default collations but are different data)
+			ri := rapid.IntRange(0, len(tb.Rows)-1).Draw(t, "nearRow")
+			for j, c := range tb.Cols {
+				if j < len(tb.PK) || (c.Base != "VARCHAR" && c.Base != "TEXT") || tb.Rows[ri][j].Kind != "str" {
+					continue
+				}
+				old := tb.Rows[ri][j].S
+				flipped := strings.Map(func(r rune) rune {
+					switch {
+					case r >= 'a' && r <= 'z':
+						return r - 32
+					case r >= 'A' && r <= 'Z':
+						return r + 32
+					}
+					return r
+				}, old)
+				if flipped == old || rapid.IntRange(0, 3).Draw(t, "nearBlank") == 0 {
+					flipped = old + " "
+				}
+				if len(flipped) > 16 {
+					continue
+				}
+				b.setCols = append(b.setCols, c.Name)
+				b.sb.WriteString(c.Name + " = ")
+				b.val(Lit{Kind: "str", S: flipped}, false)
+				b.sb.WriteString(" WHERE ")
+				for k, pk := range tb.PK {
+					if k > 0 {
+						b.sb.WriteString(" AND ")
+					}
+					b.sb.WriteString(pk + " = ")
+					b.val(tb.Rows[ri][k], true)
+				}
+				b.classes["near-equal-set"] = true
+				shape = append(shape, "pk-eq")
+				nonKey = nil
+				break
+			}
+		}
+		if nonKey == nil {
+			break
+		}
 		n := rapid.IntRange(1, min(3, len(nonKey))).Draw(t, "setN")
 		used := map[string]bool{}
 		first := true
